@@ -121,6 +121,15 @@ class C15(Check):
             ev2["end_time"] = fmt_ts(S + dt.timedelta(seconds=te2))
             if (parse_ts(ev2["start_time"]) - parse_ts(ev["end_time"])).total_seconds() >= 0:
                 evs.append(ev2)
+        if rng.random() < 0.25:
+            # an impulsive maneuver of the same target around the thrust: inside the interval, exactly where it starts or ends, in the same step, or elsewhere
+            s1, e1 = (parse_ts(evs[-1]["start_time"]) - S).total_seconds(), (parse_ts(evs[-1]["end_time"]) - S).total_seconds()
+            t_imp = rng.choice([s1, e1, (s1 + e1) / 2, s1 + rng.uniform(0, max(e1 - s1, 0.5)), max(0.5, s1 - rng.uniform(0.5, step)), e1 + rng.uniform(0.5, step), rng.uniform(0.5, total)])
+            t_imp = round(max(0.25, t_imp), 6)
+            dvv = np.array([rng.gauss(0, 1) for _ in range(3)])
+            dvv = (dvv / np.linalg.norm(dvv) * 10 ** rng.uniform(-4, -2)).tolist()
+            evs.append({"scope": "agent_propagation", "scope_instance_id": 10001, "event_type": "impulse", "start_time": fmt_ts(S + dt.timedelta(seconds=t_imp)),
+                        "thrust_vector": dvv, "thrust_frame": rng.choice(["eci", "ntw"]), "planned": False})
         geop = {"model": "egm96.txt", "degree": rng.choice([0, 2, 4]), "order": rng.choice([0, 0, 2])}
         geop["order"] = min(geop["order"], geop["degree"])
         cfg = gen.base_config(start, step, n, [gen.engine_block(1, [sensor], [tgt])], model="special_perturbations", integrator=rng.choice(["RK45", "DOP853"]),
@@ -143,7 +152,8 @@ class C15(Check):
         cfg = case["config"]
         res["key"] = jdigest([cfg["time"], cfg["events"], cfg["geopotential"], cfg["perturbations"], cfg["propagation"]["integration_method"]])
         S, step, out, n = time_info(case)
-        burns = sorted(((parse_ts(e["start_time"]) - S).total_seconds(), (parse_ts(e["end_time"]) - S).total_seconds(), e) for e in cfg["events"])
+        burns = sorted(((parse_ts(e["start_time"]) - S).total_seconds(), (parse_ts(e["end_time"]) - S).total_seconds(), e) for e in cfg["events"] if e["event_type"] != "impulse")
+        impulses = sorted(((parse_ts(e["start_time"]) - S).total_seconds(), e) for e in cfg["events"] if e["event_type"] == "impulse")
         ts, te, ev = burns[0]
         ctx = drive(case)
         try:
@@ -169,7 +179,10 @@ class C15(Check):
 
             # piecewise reference over the breakpoints
             t_end = nrun * step
-            cuts = sorted({0.0, t_end, *(float(k * step) for k in range(nrun + 1)), *(min(max(v, 0.0), t_end) for b3 in burns for v in b3[:2])})
+            cuts = sorted({0.0, t_end, *(float(k * step) for k in range(nrun + 1)), *(min(max(v, 0.0), t_end) for b3 in burns for v in b3[:2]),
+                           *(ti for ti, _e in impulses if 0.0 < ti <= t_end)})
+            # an impulse that coincides with a thrust boundary (or, to the resolution of Julian dates, with an epoch) can legitimately act just before or just after it: not judged
+            fuzzy_imp = any(abs(ti - v) < 1e-3 for ti, _e in impulses for b3 in burns for v in b3[:2]) or any(0 < abs(ti / step - round(ti / step)) * step < 1e-3 for ti, _e in impulses)
             ref = {0: x0}
             x = x0.copy()
             for a, b in zip(cuts[:-1], cuts[1:]):
@@ -178,11 +191,23 @@ class C15(Check):
                 on = next((e3 for (s3, t3, e3) in burns if a >= s3 - 1e-9 and b <= t3 + 1e-9), None)
                 sol = solve_ivp(rhs, (a, b), x, method="DOP853", rtol=1e-12, atol=1e-14, args=(on,))
                 x = sol.y[:, -1]
+                for ti, e_imp in impulses:
+                    if abs(ti - b) < 1e-9:       # the velocity changes at this instant (a record at this very epoch carries it, see C01)
+                        dv_imp = np.array(e_imp["thrust_vector"], dtype=float)
+                        x = x.copy()
+                        x[3:] += dv_imp if e_imp["thrust_frame"] == "eci" else kepler.ntw_to_eci_matrix(x) @ dv_imp
                 kk = round(b / step)
                 if abs(kk * step - b) < 1e-9:
                     ref[kk] = x.copy()
             worst = 0.0
+            if impulses:
+                cnt["thrust_with_impulse_on_the_same_target"] = 1
+                if any(s3 - 1e-9 <= ti <= t3 + 1e-9 for ti, _e in impulses for s3, t3, _e3 in burns):
+                    cnt["impulse_inside_a_thrust_interval"] = 1
             for k in range(1, nrun + 1):
+                if fuzzy_imp:
+                    res["indeterminate"] += 1
+                    break
                 got = snaps[k]["targets"].get(10001)
                 if got is None or k not in ref:
                     continue
@@ -234,7 +259,8 @@ class C15(Check):
         cfg = case["config"]
         if len(cfg["events"]) > 1:
             for i in range(len(cfg["events"])):
-                yield variant(case, f"drop-thrust-{i}", lambda c, i=i: c["config"]["events"].pop(i))
+                if cfg["events"][i]["event_type"] == "impulse" or sum(e["event_type"] != "impulse" for e in cfg["events"]) > 1:
+                    yield variant(case, f"drop-thrust-{i}", lambda c, i=i: c["config"]["events"].pop(i))
         if cfg["perturbations"]["third_bodies"]:
             yield variant(case, "no-third-bodies", lambda c: c["config"]["perturbations"].__setitem__("third_bodies", []))
         if cfg["geopotential"]["degree"]:
